@@ -26,6 +26,9 @@ TermOf(ln) == CASE ln.fn = "CommitV1" -> CommitV1(ln.in)
 
 Known(ln) == ln.fn \in {"CommitV1", "CommitV2", "AckV1", "AckV2"}
 
+\* commitments of one kind (v1 packets, v2 packets, v1 acks, v2 acks) live in their own key space of the store
+Key(ln) == ln.fn \o ":" \o ln.out.real
+
 Viol(ln, sn) ==
     IF ~Known(ln) THEN {<<"X", "unknown-function">>}
     ELSE IF ln.res # "ok" THEN {<<"C07", "commitment-is-total">>}
@@ -34,7 +37,7 @@ Viol(ln, sn) ==
       \cup Flag("C07", "bytes-equal-the-specification-formula", o.real # o.term)
       \cup Flag("C07", "deterministic", o.again # o.real)
       \cup Flag("C07", "fixed-length-32", o.len # 32)
-      \cup Flag("C07", "different-committed-fields-different-commitment", o.real \in DOMAIN sn /\ sn[o.real] # T)
+      \cup Flag("C07", "different-committed-fields-different-commitment", Key(ln) \in DOMAIN sn /\ sn[Key(ln)] # T)
 
 Report(ln, viol) == \A v \in viol : PrintT(<<"MONFAIL", ln.tr, ln.i, v>>)
 
@@ -42,8 +45,8 @@ TraceInit == l = 0 /\ seen = ("-" :> "-")
 TraceNext == /\ l < Len(Trace)
              /\ LET ln == Trace[l + 1] IN
                 /\ Report(ln, Viol(ln, seen))
-                /\ seen' = IF Known(ln) /\ ln.res = "ok" /\ ln.out.real \notin DOMAIN seen
-                           THEN seen @@ (ln.out.real :> TermOf(ln)) ELSE seen
+                /\ seen' = IF Known(ln) /\ ln.res = "ok" /\ Key(ln) \notin DOMAIN seen
+                           THEN seen @@ (Key(ln) :> TermOf(ln)) ELSE seen
              /\ l' = l + 1
              /\ (l + 1 = Len(Trace) => PrintT(<<"CONSUMED", l + 1>>))
 TraceSpec == TraceInit /\ [][TraceNext]_<<l, seen>>
